@@ -187,4 +187,63 @@ theorem wf_flags_inner (c : Cap) (h : c.wf = true) :
     exact ⟨f, rfl, by cases f <;> rfl, by cases f <;> rfl⟩
   | unknown u e => simp [Cap.wf] at h
 
+
+/-! ### the node cache never changes a verdict -/
+
+/-- every cached entry is what a cold call with that bigcap in that context builds -/
+def cacheOk (cache : NodeCache) : Prop :=
+  ∀ e ∈ cache, ∀ w r, orNone (orBytes w r) = some e.bigcap → createFromCap w r e.deep = .known e.kind e.cap
+
+theorem createFromCap_known_of_big (w r w' r' : Option Bytes) (deep : Bool) (big : Bytes) (k : NodeKind) (cap : Cap)
+    (h1 : orNone (orBytes w r) = some big) (h2 : orNone (orBytes w' r') = some big)
+    (h : createFromCap w r deep = .known k cap) : createFromCap w' r' deep = .known k cap := by
+  simp only [createFromCap, h1, h2] at h ⊢
+  cases hk : createFromSingleCap (fromString deep big) with
+  | none => rw [hk] at h; simp at h
+  | some k' => rw [hk] at h; exact h
+
+theorem cached_step (cache : NodeCache) (hc : cacheOk cache) (w r : Option Bytes) (deep : Bool) :
+    (createFromCapCached cache w r deep).1 = createFromCap w r deep ∧ cacheOk (createFromCapCached cache w r deep).2 := by
+  simp only [createFromCapCached]
+  cases hb : orNone (orBytes w r) with
+  | none => simp only [createFromCap, hb]; exact ⟨trivial, hc⟩
+  | some big =>
+    simp only
+    cases hl : cacheLookup cache deep big with
+    | some e =>
+      simp only
+      have hm := List.mem_of_find?_eq_some hl
+      have hp := List.find?_some hl
+      simp only [Bool.and_eq_true, beq_iff_eq] at hp
+      refine ⟨?_, hc⟩
+      have := hc e hm w r (by rw [hb, hp.2])
+      rw [hp.1] at this; exact this.symm
+    | none =>
+      simp only
+      cases hn : createFromCap w r deep with
+      | unknown n => exact ⟨rfl, hc⟩
+      | known k cap =>
+        simp only
+        split
+        · refine ⟨rfl, ?_⟩
+          intro e he w' r' hw
+          simp only [List.mem_cons] at he
+          rcases he with rfl | he
+          · exact createFromCap_known_of_big w r w' r' deep big k cap hb hw hn
+          · exact hc e he w' r' hw
+        · exact ⟨rfl, hc⟩
+
+theorem runHistory_eq_cold (cache : NodeCache) (hc : cacheOk cache) (ops : List NmOp) : runHistory cache ops = runCold ops := by
+  induction ops generalizing cache with
+  | nil => rfl
+  | cons op rest ih =>
+    cases op with
+    | call w r d =>
+      obtain ⟨h1, h2⟩ := cached_step cache hc w r d
+      simp only [runHistory, runCold]
+      rw [h1, ih _ h2]
+    | gc keep =>
+      simp only [runHistory, runCold]
+      exact ih _ (fun e he => hc e (List.mem_filter.mp he).1)
+
 end Tahoe.Uri
